@@ -46,6 +46,9 @@ def export(spec, flavor, translations, ctx=None):
     coll = mkcollection(spec["obj"], chunk_parent(spec["genome"], ch_[0], ch_[1], strand=spec.get("chunk_strand", "+")) if ch_ else chrom_parent(spec["genome"]))
     colls = [coll] + [mkcollection(m_["obj"], chrom_parent(m_["genome"], name=m_.get("name", "chr%d" % (k_ + 2))), sequence_name=m_.get("name", "chr%d" % (k_ + 2))) for k_, m_ in enumerate(spec.get("more") or [])]
     buf = io.StringIO()
+    # force_strand=False skips members whose strand differs from their gene's instead of forcing them: the genes generated here have
+    # one strand, so nothing is skipped and the file is the same
+    fs_ = {"force_strand": False} if spec.get("force_strand") is False else {}
     with warnings.catch_warnings():
         warnings.simplefilter("ignore")
         if spec.get("other_flavor_first"):
@@ -57,17 +60,17 @@ def export(spec, flavor, translations, ctx=None):
             import tempfile
             path = os.path.join(tempfile.gettempdir(), "verif_c12_%d.gbk" % os.getpid())
             try:
-                collection_to_genbank(as_container(colls, spec.get("container", "list")), path, genbank_type=GenbankFlavor[flavor], update_translations=translations)
+                collection_to_genbank(as_container(colls, spec.get("container", "list")), path, genbank_type=GenbankFlavor[flavor], update_translations=translations, **fs_)
                 with open(path) as fh:
                     buf.write(fh.read())
             finally:
                 if os.path.exists(path):
                     os.remove(path)
         else:
-            collection_to_genbank(as_container(colls, spec.get("container", "list")), buf, genbank_type=GenbankFlavor[flavor], update_translations=translations)
+            collection_to_genbank(as_container(colls, spec.get("container", "list")), buf, genbank_type=GenbankFlavor[flavor], update_translations=translations, **fs_)
         if ctx is not None:
             buf2 = io.StringIO()
-            collection_to_genbank(as_container(colls, spec.get("container", "list")), buf2, genbank_type=GenbankFlavor[flavor], update_translations=translations)
+            collection_to_genbank(as_container(colls, spec.get("container", "list")), buf2, genbank_type=GenbankFlavor[flavor], update_translations=translations, **fs_)
             ctx.true("second_export_same_file[%s]" % flavor, buf2.getvalue() == buf.getvalue(), {"first": buf.getvalue()[:300], "second": buf2.getvalue()[:300]})
     return coll, buf.getvalue()
 
@@ -322,6 +325,7 @@ def strat_genbank(draw, tier="quick"):
     sp["container"] = draw(st.sampled_from(["list", "list", "tuple", "generator", "iterator"]))
     sp["target"] = draw(st.sampled_from(["handle", "handle", "path"]))
     sp["other_flavor_first"] = draw(st.integers(0, 2)) == 0
+    sp["force_strand"] = draw(st.sampled_from([True, True, False]))
     if draw(st.integers(0, 3)) == 0:
         # the collection sits on a sequence chunk that contains every member
         members_lo = min([t["exons"][0][0] for gn in sp["obj"]["genes"] for t in gn["transcripts"]] + [f["blocks"][0][0] for c in sp["obj"]["feature_collections"] for f in c["features"]])
